@@ -1,7 +1,7 @@
 ---------------------------- MODULE Gen_Limits ----------------------------
 EXTENDS Limits, Json, CSV, IOUtils
 Ev(o, a, x) == [op |-> o, args |-> a, out |-> x]
-Audit == <<Ev("Probe", [room |-> eofK' + 64 <= CeilK], [healthy |-> TRUE, n |-> nres', members |-> nmem'])>>
+Audit == <<Ev("Probe", [room |-> eofK' + slackK' + 400 <= CeilK], [healthy |-> TRUE, n |-> nres', members |-> nmem'])>>
 EmitAudited == (st' # "init") => CSVWrite("%1$s", <<ToJson([spec |-> "Limits", steps |-> hist' \o Audit])>>, IOEnv.GEN_OUT)
 EmitFull == (Len(hist') = MaxOps) => EmitAudited
 =============================================================================
